@@ -48,6 +48,8 @@ type Obligation struct {
 	Src     string // contract clause text
 	lines   []string
 	Extra   []string // extra lines (axioms) placed after the prefix
+	WitNames []string
+	WitTerms []string
 	Timeout int
 }
 
